@@ -137,6 +137,21 @@ def build(engine):
 
 
 WHAT = {
+    'replica_exec:c18': 'BOUNDED (executed under panic capture, not proved): every public read method of Task, TaskData, WorkingSet, DependencyMap and '
+                        'Replica returns normally for every task map with 0, 1 (thorough: 2) entries over 47 recognised keys / prefixes / malformed '
+                        'keys and 25 hostile values (non-numeric, negative, astronomically large, out-of-calendar timestamps, unknown statuses, '
+                        'non-ASCII, NUL, 400 digits), planted through the storage API, with and without a working-set entry for a missing task',
+    'replica_exec:c19': 'BOUNDED (executed, not proved): for every sequence of up to 3 (thorough: 4) of 52 Task / TaskData mutator calls on three '
+                        'base tasks, followed by commit and reload: replaying the recorded operations from the stored task gives the task the caller '
+                        'holds, every Update carries the value the property really had, the stored task equals the held one, what was written '
+                        'reads back (tags, annotations, dependencies, UDAs, due/wait/entry), reserved names are refused and record nothing, '
+                        '`end` follows the status, the synthetic tags follow status/start/wait, the dependency map lists exactly the edges from '
+                        'working-set tasks to pending tasks',
+    'replica_exec:c14': 'BOUNDED (executed, not proved): for every edit sequence of up to 5 (thorough: 6) steps (create, update with hostile '
+                        'strings / null / sub-second, pre-1970 and year-9999 timestamps, delete of a populated task, undo point, sync) the versions '
+                        'handed to a harness-side Server are UTF-8 JSON listing, in order, exactly the committed Create / Delete / Update operations '
+                        'with exactly the documented fields and RFC 3339 Z timestamps -- undo points, old values and old tasks never leave; and 15 '
+                        'hand-written versions (other field orders, whitespace, timestamp precisions and +00:00 / +02:00 offsets) are applied',
     'server_conform': 'BOUNDED (executed, not proved): the local server (SQLite) and the git-backed server (local-only; two clones sharing a bare '
                       'remote, handles created up-front or lazily) are run on every call sequence within the bounds, from several handles, '
                       'and every result is checked against the executable version-chain contract of C08: accepted only on top of the latest '
@@ -152,10 +167,13 @@ WHAT = {
 
 def run(h, prop, tier):
     engine = h['engine']
-    out = {'engine': engine, 'harness': engine, 'obligations': 1, 'discharged': 0, 'violations': [], 'undecided': [],
-           'bounded': True, 'what': WHAT.get(engine, ''),
+    what = WHAT.get(engine + ':' + h.get('mode', ''), WHAT.get(engine, ''))
+    out = {'engine': engine, 'harness': engine + ('-' + h['mode'] if h.get('mode') else ''), 'mode': h.get('mode'), 'obligations': 1, 'discharged': 0, 'violations': [], 'undecided': [],
+           'bounded': True, 'what': what,
            'trusted': ['%s: bounded execution, not a proof (rustc, SQLite, the harness in /verif/dyn/%s)' % (engine, engine)],
-           'samples': [{'bounded_check': engine, 'claim': WHAT.get(engine, '')}]}
+           'samples': [{'bounded_check': engine, 'claim': what}]}
+    if h.get('mode'):
+        h = dict(h, args=list(h.get('args', [])) + ['--mode', h['mode']])
     binary, msg, secs = build(engine)
     out['build'] = msg
     out['build_s'] = round(secs, 1)
@@ -168,7 +186,7 @@ def run(h, prop, tier):
     os.makedirs(replays, exist_ok=True)
     # /dev/shm keeps the thousands of scratch databases off the disk
     scratch = '/dev/shm/vf-%s-%d' % (engine, os.getpid()) if os.path.isdir('/dev/shm') else os.path.join(work, 'db')
-    cmd = [binary, '--work', scratch, '--out', replays, '--tier', tier, '--jobs', str(h.get('jobs', 12)), '--seed', os.environ.get('VERIF_SEED', '0') if os.environ.get('VERIF_SEED', '0').isdigit() else '0']
+    cmd = [binary] + list(h.get('args', [])) + ['--work', scratch, '--out', replays, '--tier', tier, '--jobs', str(h.get('jobs', 12)), '--seed', os.environ.get('VERIF_SEED', '0') if os.environ.get('VERIF_SEED', '0').isdigit() else '0']
     out['cmd'] = 'python3 vf/main.py dyn-build %s && build/dyn/bin/<tree-hash>/%s --tier %s' % (engine, engine, tier)
     t0 = time.time()
     try:
@@ -202,7 +220,7 @@ def run(h, prop, tier):
         except (OSError, ValueError):
             m = {}
         kind = (m.get('scenario') or {}).get('kind', '')
-        out['violations'].append({'engine': engine, 'harness': engine + ('-' + kind if kind and engine != 'sqlite_equiv' else ''),
+        out['violations'].append({'engine': engine, 'mode': h.get('mode'), 'harness': out['harness'] + ('-' + kind if kind and engine == 'server_conform' else ''),
                                   'counterexample': m.get('scenario'), 'at': m.get('at'), 'scenario': m.get('scenario'),
                                   'observed': {k: m.get(k) for k in ('sqlite', 'inmemory', 'got', 'expected') if k in m},
                                   'note': 'failing call sequence found by bounded execution of the real code; re-run: ./check %s --replay <this file>' % prop})
@@ -221,13 +239,17 @@ def run(h, prop, tier):
 
 
 def replay(engine, path):
+    try:
+        mode = json.load(open(path)).get('mode')
+    except (OSError, ValueError):
+        mode = None
     binary, msg, _ = build(engine)
     if binary is None:
         print('UNDECIDED replay: %s' % msg)
         return 2
     scratch = '/dev/shm/vf-%s-replay-%d' % (engine, os.getpid()) if os.path.isdir('/dev/shm') else os.path.join(U.BUILD, 'replaydb')
     try:
-        p = subprocess.run([binary, '--work', scratch, '--out', os.path.join(U.BUILD, 'replay-out'), '--replay', path],
+        p = subprocess.run([binary] + (['--mode', mode] if mode else []) + ['--work', scratch, '--out', os.path.join(U.BUILD, 'replay-out'), '--replay', path],
                            stdout=subprocess.PIPE, stderr=subprocess.STDOUT, text=True, timeout=600)
     finally:
         shutil.rmtree(scratch, ignore_errors=True)
